@@ -2,6 +2,8 @@
    Statements only; proofs are in Cbor/RoundtripProofs.v (CBOR). *)
 From SF Require Import Base.Prelude Base.Utf8 Core.Events Cbor.Spec Cbor.Enc Cbor.RoundtripProofs Json.Enc Json.EncProofs Ubjson.Spec Ubjson.Enc Ubjson.Img.
 From SF Require Ubjson.RoundtripProofs.
+From SF Require Import Json.Spec.
+From SF Require Json.RoundtripProofs.
 
 (* CBOR.  For every well-formed tree (= every well-formed event stream describing one
    value: any nesting, announced and unknown lengths, every scalar kind, the typed
@@ -96,3 +98,26 @@ Theorem C07_ubj : forall t, wf_tree t = true -> SF.Ubjson.RoundtripProofs.tree_s
   exists bs, ubj_encode (flatten t) = Some bs /\ ubj_decode bs = RValue (ubj_img t) [].
 Proof. exact SF.Ubjson.RoundtripProofs.C07_ubj. Qed.
 Print Assumptions C07_ubj.
+
+(* JSON, the value: for every well-formed tree with finite floats (or ignoreInvalidFloat),
+   under every option setting, the RFC 8259 reference decoder (Json/Spec.v) reads the
+   encoder model's output back as [json_img cfg t]: strings and keys sanitized (invalid
+   UTF-8 -> U+FFFD), integers exact, non-finite floats null, finite floats whatever the
+   reference makes of strconv's text.  The hypotheses speak about strconv only: its float
+   text is a number of the RFC grammar made of "+-.0-9e" that ParseFloat maps to [fimg], and
+   ParseFloat's value on the text patched with ".0" is [fbits_r]. *)
+Theorem C07_json : forall (ffmt : Z -> Z -> bytes) (pf : bytes -> option Z) (fimg : Z -> Z -> cnum) (fbits_r : Z -> Z -> Z),
+  (forall w bits, w = 32 \/ w = 64 -> in_u w bits = true -> nonfinite w bits = false ->
+     exists isint, json_number (ffmt w bits) = NumOk (ffmt w bits) isint [] /\
+                   json_num_value pf (ffmt w bits) isint = Some (fimg w bits)) ->
+  (forall w bits, w = 32 \/ w = 64 -> in_u w bits = true -> nonfinite w bits = false ->
+     Forall (fun c => In c fchars) (ffmt w bits)) ->
+  (forall w bits, w = 32 \/ w = 64 -> in_u w bits = true -> nonfinite w bits = false ->
+     snd (radix_scan (ffmt w bits) 0) = true ->
+     pf (SF.Json.RoundtripProofs.radix_patch (ffmt w bits)) = Some (fbits_r w bits)) ->
+  forall cfg t, wf_tree t = true -> (ignore_invalid cfg = true \/ tree_finite t = true) ->
+  exists e', json_run cfg ffmt (jenc0 None) (flatten t) 0 = JRun e' None /\
+    json_decode pf (w_bytes (je_w e')) =
+      RValue (SF.Json.RoundtripProofs.json_img ffmt fimg (fun w bits => CF64 (fbits_r w bits)) cfg t) [].
+Proof. exact SF.Json.RoundtripProofs.C07_json_strconv. Qed.
+Print Assumptions C07_json.
